@@ -6,7 +6,7 @@
    frame-form surface in its own coordinates; [t4val c] = sense function of a
    written SURF line (with TRANSFORM); [tr_convert RS tr s] = the model of
    transformation() followed by conversion_surface_params(). *)
-From Coq Require Import List ZArith Bool Reals.
+From Coq Require Import List ZArith Bool Reals Lra.
 From T4V Require Import Base.Scalar C04.Vec C04.Model C04.Spec C04.ProofsFrame C04.ProofsConvert
   C04.ProofsQuad C04.ProofsSurf C04.ProofsMatrix C04.ProofsCard.
 Import ListNotations.
@@ -200,3 +200,19 @@ Theorem C04_sq_under_transformation_refuted :
     msense s p' < 0 /\ 0 < t4val c (to_main o b p').
 Proof. exact sq_under_transformation_refuted. Qed.
 Print Assumptions C04_sq_under_transformation_refuted.
+
+(* non-vacuity: the quarter turn about z used by the corpus deck
+   TRCL=(1 0 0  0 1 0  -1 0 0  0 0 1) satisfies every hypothesis on B, and moves
+   the point (0, 1.5, 0.5) of the C/X axis to (-0.5, 0, 0.5) (written CYLY -0.5 0.5) *)
+Example C04_example :
+  let b := mkV (mkV 0 1 0) (mkV (-1) 0 0) (mkV 0 0 1) in
+  rows_orthonormal b /\ rotation b /\ clip_ok_m b /\ norm2 (mkV 1 0 0) = 1 /\
+  to_main (mkV 1 0 0) b (mkV 0 (3 / 2) (1 / 2)) = mkV (- (1 / 2)) 0 (1 / 2).
+Proof.
+  cbv zeta.
+  assert (K0 : clip_ok 0) by (left; reflexivity).
+  assert (K1 : clip_ok 1) by (right; rewrite Rabs_R1; lra).
+  assert (Km : clip_ok (-1)) by (right; unfold Rabs; destruct (Rcase_abs (-1)); lra).
+  unfold rotation, rows_orthonormal, det, cross, dot, norm2, clip_ok_m, clip_ok3, to_main, vplus, vscale; cbn [vx vy vz].
+  repeat split; try assumption; try ring. f_equal; field.
+Qed.
